@@ -50,6 +50,55 @@ CORE_EMPTY_REVIEWED = {
 }
 
 
+
+def convert_node_skeleton(syn):
+    """`convert_node` without the conversion of the node kinds: the statements in front of the big `let <core> = match ..` and behind it,
+    folded (rules/smalleval.py) over the four combinations of a pending assignment target and a pending return, with `append_assign` /
+    `append_ret` as constructors and the State setters folded from their source.
+    -> {(has target, must return): (result, state the children are converted under, names that still hold the unreset state)}"""
+    import copy
+    from .smalleval import SmallEval, Scope
+    cn = syn.one_fn("convert_node", mod="generate::convert")
+    stmts = cn["body"]["stmts"]
+    sizes = [len(src(s_)) for s_ in stmts]
+    k = max(range(len(stmts)), key=lambda i: sizes[i])
+    big = stmts[k]
+    if big.get("k") != "local" or big["pat"].get("k") != "pident" or sizes[k] < 0.7 * sum(sizes):
+        raise AnchorError("convert_node: the conversion of the node kinds is not one `let <name> = ..` statement")
+    st_struct = syn.structs.get("generate::convert::state::State")
+    if not st_struct:
+        raise AnchorError("struct generate::convert::state::State not found")
+    fields_all = [fn_ for fn_, _ in st_struct["fields"]]
+    methods = {f_["name"]: f_ for f_ in syn.fns if f_["mod"] == "generate::convert::state" and "State" == (f_.get("impl_of") or "").strip() and f_.get("body")}
+    local = {f["name"]: f for f in syn.fns if f["mod"] == cn["mod"] and f.get("impl_of") is None and f.get("body") and f["name"] not in ("append_assign", "append_ret", "convert_node")}
+    ev = SmallEval(local_fns=local, funcs={"append_assign": lambda core, to, name, imp: ("assign", core, to, name), "append_ret": lambda core: ("ret", core)})
+    ev.local_methods = methods
+    out = {}
+    for target in (None, ("Some", ("tuple", [("sym", "target"), ("sym", "tname")]))):
+        for ret in (False, True):
+            state = {"__struct__": "State"}
+            state.update({fn_: ("sym", "old." + fn_) for fn_ in fields_all})
+            state["must_assign_to"] = copy.deepcopy(target)
+            state["is_last_must_be_ret"] = ret
+            scope = Scope(None, {"ast": ("sym", "ast"), "imp": ("sym", "imp"), "ctx": ("sym", "ctx"), "state": state})
+            for s_ in stmts[:k]:
+                if s_.get("k") == "local" and s_.get("init") is not None:
+                    if not ev.bind(s_["pat"], ev.ev(s_["init"], scope), scope):
+                        raise AnchorError("convert_node: refutable `let` in front of the conversion")
+                elif s_.get("k") == "expr":
+                    ev.ev(s_["e"], scope)
+                else:
+                    raise AnchorError("convert_node: unexpected statement in front of the conversion")
+            under = copy.deepcopy(scope.get("state"))
+            unreset = sorted(n_ for n_, v_ in scope.items() if isinstance(v_, dict) and v_.get("__struct__") == "State" and v_ is not under and
+                             v_.get("must_assign_to") == target and v_.get("is_last_must_be_ret") is ret and n_ != "state") if target is not None and ret else None
+            probe = dict(big)
+            probe["init"] = {"k": "__value__", "v": ("sym", "CORE")}
+            r = ev.ev({"k": "block", "stmts": [probe] + stmts[k + 1:]}, scope)
+            out[(target is not None, ret)] = (r, under, unreset)
+    return cn, out, fields_all
+
+
 def run(chk, facts):
     chk.rule("R-C01-1", "operator chain: spelling -> Token -> Node -> NodeTy -> Core -> Python spelling equals the documented table; operands keep their side")
     chk.rule("R-C01-2", "variants reaching `_ => NodeTy::Empty` / `_ => Core::Empty` are reviewed")
@@ -408,10 +457,16 @@ def _siblings(chk, facts):
                f"skip_return = {sorted(variants_of(s2))}, skip_assign = {'skip_return + ' if 'skip_return(core)||' in s1 else ''}{sorted(variants_of(s1))}: "
                "a statement that already transfers control or binds is wrapped again (or a value is no longer returned/assigned)", facts.loc_of(sa))
         # the hooks in convert_node: assign first, then return, both on the converted node
-        cn = syn.one_fn("convert_node", mod="generate::convert")
-        s = src(cn["body"]).replace(" ", "")
-        i1, i2 = s.find("append_assign(&core"), s.find("append_ret(&core)")
-        ok = 0 < i1 < i2 and "ifis_last_must_be_ret{append_ret(&core)}else{core}" in s
+        from .smalleval import NoEval as _NoEvalSk
+        try:
+            cn, sk, _ = convert_node_skeleton(syn)
+            CORE, T, N = ("sym", "CORE"), ("sym", "target"), ("sym", "tname")
+            want_sk = {(False, False): ("Ok", CORE), (False, True): ("Ok", ("ret", CORE)), (True, False): ("Ok", ("assign", CORE, T, N)),
+                       (True, True): ("Ok", ("ret", ("assign", CORE, T, N)))}
+            ok = all(sk[k_][0] == want_sk[k_] for k_ in want_sk)
+        except _NoEvalSk:
+            cn = syn.one_fn("convert_node", mod="generate::convert")
+            ok = False
         chk.ob("R-C01-4", "convert_node:hooks", ok, "convert_node applies append_assign (if a target is pending) and then append_ret (if the last statement must return)" if ok else
                "the order or the conditions of the append_assign / append_ret hooks in convert_node changed", facts.loc_of(cn))
     except AnchorError as e:
@@ -618,13 +673,20 @@ def _state_flags(chk, facts):
     # (c) only IfElse / Match get the unreset state
     try:
         t2c, cn = chain.nodety_to_core(facts)
-        users = sorted({r["src"] for r in t2c if "old_state" in idents_in(r["arm"]["body"])})
+        from .smalleval import NoEval as _NoEvalSk2
+        try:
+            _, sk, fields_all = convert_node_skeleton(syn)
+            unreset = set(sk[(True, True)][2] or [])
+            reset_ok = all(isinstance(u_, dict) and u_.get("must_assign_to") is None and u_.get("is_last_must_be_ret") is False and
+                           all(u_.get(f_) == ("sym", "old." + f_) for f_ in fields_all if f_ not in ("must_assign_to", "is_last_must_be_ret"))
+                           for (_r, u_, _n) in sk.values())
+        except _NoEvalSk2:
+            unreset, reset_ok = set(), False
+        users = sorted({r["src"] for r in t2c if unreset & idents_in(r["arm"]["body"])})
         ok = users == ["IfElse", "Match"]
         chk.ob("R-C01-7", "old_state-users", ok, "only if and match are converted with the pending return/assignment still set (their branches take it over)" if ok else
-               f"the unreset state is handed to {users}: the pending return/assignment is applied inside and again outside that construct", facts.loc_of(cn))
-        s = src(cn["body"]).replace(" ", "")
-        ok = "letstate=&state.must_assign_to(None,None).is_last_must_be_ret(false)" in s and "letis_last_must_be_ret=state.is_last_must_be_ret" in s \
-            and "letmust_assign_to=state.must_assign_to.clone()" in s
+               f"the unreset state ({sorted(unreset) or 'not found'}) is handed to {users}: the pending return/assignment is applied inside and again outside that construct", facts.loc_of(cn))
+        ok = reset_ok
         chk.ob("R-C01-7", "convert_node:save-and-reset", ok, "convert_node saves both pending flags, then shadows `state` with both reset" if ok else
                "convert_node no longer saves and resets both pending flags before converting the children", facts.loc_of(cn))
     except AnchorError as e:
